@@ -4,7 +4,7 @@ PROP = {
     "bin": "c13",
     "coq_targets": ["theories/Flow/C13Check"],
     "n": {"quick": 480, "thorough": 12000},
-    "theorems": [],
+    "theorems": ["constants_sound_partial", "constants_eval_sound_partial", "constants_sound_refuted"],
     "rule": "random IL functions over 2-5 scalars (1-6 blocks, <=4 instructions each): constant assignments, `s = t op c`, `s = t op u`, "
             "`s = s + 1`, loads, stores, intrinsics with declared/undeclared effects, indirect branches, flags from comparisons; chains, "
             "diamonds, loops, entry inside a loop in ~1/12, an unreachable predecessor block in ~1/5, entry block initialising every scalar in 1/2; "
